@@ -37,7 +37,11 @@ class Tree:
 
     # -- clock -------------------------------------------------------------
     def tick(self):
-        self.clock += 7
+        """Strictly increasing logical time.  Most steps are whole seconds; every third one is a fraction of a second, so
+        that two consecutive versions of a file can carry modification times within the same second (a change still
+        "advances the modification time", which is all the properties ask for)."""
+        self.ticks = getattr(self, 'ticks', 0) + 1
+        self.clock += 0.25 if self.ticks % 3 == 0 else 7
         return self.clock
 
     def _stamp_path(self, p):
@@ -73,6 +77,23 @@ class Tree:
 
     def write(self, rel, mapping, fmt='json'):
         return self.write_text(rel, render(mapping, fmt))
+
+    def symlink(self, rel, target_rel, absolute=False):
+        """A symbolic link at `rel` that points to `target_rel` (both relative to the tree root; the target - a file or a
+        directory - must exist: no dangling links).  The link text is relative to the real place of the link's directory
+        (so that it also resolves when that directory is reached through another link) or, on request, absolute.  The
+        clock advances; the link, what it points to, the link's directory and the root get the new mtime."""
+        p = self.path(rel)
+        target = self.path(target_rel)
+        if not os.path.exists(target):
+            raise FileNotFoundError(target)
+        if not absolute:
+            target = os.path.relpath(os.path.join(os.path.realpath(os.path.dirname(target)), os.path.basename(target)),
+                                     os.path.realpath(os.path.dirname(p)))
+        os.symlink(target, p)
+        self.stamp(p)                      # (utime follows the link: the target carries the new mtime as well)
+        os.utime(p, (self.clock, self.clock), follow_symlinks=False)
+        return p
 
     def touch(self, rel):
         p = self.path(rel)
